@@ -201,9 +201,9 @@ getById n0 x''',
 }
 
 TIERS = {
-    'micro': dict(nrandom=96, nops=300, depth=0, chk=5, tail=0.0),
-    'mini': dict(nrandom=320, nops=300, depth=0, chk=5, tail=0.0),
-    'quick': dict(nrandom=1500, nops=300, depth=0, chk=5, tail=0.0),
+    'micro': dict(nrandom=96, nops=300, depth=0, chk=1, tail=0.0),
+    'mini': dict(nrandom=320, nops=300, depth=0, chk=1, tail=0.0),
+    'quick': dict(nrandom=1500, nops=300, depth=0, chk=1, tail=0.0),
     'thorough': dict(nrandom=10000, nops=600, depth=0, chk=10, tail=0.0),
 }
 
